@@ -538,7 +538,7 @@ let handle (op : string) (a : string array) : string =
     let p = arg_str a.(0) in
     "dir=" ^ opt_s (lcmessages_parent p) ^
     (if lg_endswith p s_dot_po then
-       (let (root, ext) = splitext (basename p) in " po root=" ^ out_str root ^ " ext=" ^ out_str ext)
+       " po root=" ^ out_str (po_stem p)
      else " notpo")
   | "lcheck" ->
     (* template opt(flag ll cc enc mod) path nmetas metas.. npls pls.. npcs pcs.. nmunch (name munched).. *)
